@@ -724,6 +724,17 @@ func (c *FnCtx) callByContract(st *State, fs *FuncSpec, sig *types.Signature, re
 					cv[n] = args[i]
 				}
 			}
+			needsIn := false
+			for _, g := range cs.GhostFns {
+				if g.In {
+					needsIn = true
+				}
+			}
+			if needsIn {
+				// a case contract parameterised by a caller-supplied ghost function is not used at
+				// call sites (no such function is supplied here); it is verified on its own
+				continue
+			}
 			cpre := &SpecScope{c: c, cur: old, vars: cv}
 			cond := "true"
 			for _, r := range cs.Requires {
